@@ -217,11 +217,26 @@ pub fn decode_cbor(input: &[u8]) -> Result<Value, DecodeError> {
   decode_value(&mut decoder)
 }
 
+/// Pull the next header, rejecting the two-byte encoding of a simple value
+/// below 32, which RFC 8949 section 3.3 declares not well-formed.
+fn pull_header<R: ciborium_io::Read>(decoder: &mut Decoder<R>) -> Result<Header, DecodeError>
+where
+  ciborium_ll::Error<R::Error>: Into<DecodeError>,
+{
+  let start = decoder.offset();
+  match decoder.pull().map_err(Into::into)? {
+    Header::Simple(s) if s < 32 && decoder.offset() - start == 2 => {
+      Err(DecodeError::Syntax(start))
+    }
+    header => Ok(header),
+  }
+}
+
 fn decode_value<R: ciborium_io::Read>(decoder: &mut Decoder<R>) -> Result<Value, DecodeError>
 where
   ciborium_ll::Error<R::Error>: Into<DecodeError>,
 {
-  let header = decoder.pull().map_err(Into::into)?;
+  let header = pull_header(decoder)?;
   match header {
     Header::Positive(v) => Ok(Value::Integer(Integer::from(v))),
     Header::Negative(v) => {
@@ -363,7 +378,7 @@ where
       let mut items = Vec::new();
       loop {
         // Peek at the next header to check for break
-        let h = decoder.pull().map_err(Into::into)?;
+        let h = pull_header(decoder)?;
         if h == Header::Break {
           break;
         }
@@ -396,7 +411,7 @@ where
       // Indefinite-length map
       let mut entries = Vec::new();
       loop {
-        let h = decoder.pull().map_err(Into::into)?;
+        let h = pull_header(decoder)?;
         if h == Header::Break {
           break;
         }
